@@ -1,6 +1,7 @@
 import Aiorpcx.Common.Hex
 import Aiorpcx.Common.JWire
 import Aiorpcx.C04.Model
+import Aiorpcx.C04.Loads
 import Aiorpcx.Facts.C04
 /-! Line-protocol driver for the C04 model (values in the `JWire` token encoding).
 
@@ -14,6 +15,8 @@ import Aiorpcx.Facts.C04
     batch <P> <k> (R <s> <J> <J> | N <s> <J>)*   -> ok <J array of payloads> | item line (error)
     detect <J payload>               -> v1|v2|loose
     dumps <J>                        -> D<the model's json.dumps text>   (floats print as `F`)
+    loads <hex bytes>                -> L<J> | Lfail      the reader of Loads.lean (`loadsOf`) on the
+                                        bytes a real encoder emitted (float-free messages only)
 
   item line:  R <s method> <J args> <J id> | N <s method> <J args> | V <J result> <J id>
             | E <J code> <s message> <J id> | X <int code> <J id>          (ProtocolError in a Response)
@@ -148,6 +151,15 @@ def handle (line : String) : String :=
   | "detect" :: rest =>
       match parseToks rest with
       | some v => showProto (detectProtocol v)
+      | none => "bad-op"
+  | ["loads", hex] =>
+      match Hex.parseBytes hex with
+      | some bs =>
+          if bs.all (· < 128) then
+            match loadsOf toyPf (bs.map fun b => Char.ofNat b.toNat) with
+            | .value v => "L" ++ showJ v
+            | _ => "Lfail"
+          else "Lfail"
       | none => "bad-op"
   | "dumps" :: rest =>
       match parseToks rest with
